@@ -159,7 +159,9 @@ Definition agree_on (L L' : str_lookup) (P : rstr -> Prop) : Prop := forall s, P
 Theorem wav_encode_agree L L' ws :
   agree_on L L' (fun s => In s (map fst ws)) -> wav_encode L' ws = wav_encode L ws.
 Proof.
-  intros Ha. unfold wav_encode. f_equal. apply mapM_ext_in. intros i _.
+  intros Ha. unfold wav_encode.
+  match goal with |- bind (mapM ?f ?l) _ = bind (mapM ?g ?l) _ => assert (mapM f l = mapM g l) as ->; [|reflexivity] end.
+  apply mapM_ext_in. intros i _.
   destruct (assocN_last i (map (fun w => (snd w, fst w)) ws)) as [p|] eqn:E; [|reflexivity].
   apply Ha. apply assocN_last_in in E. apply in_map_iff in E as ([s k] & Heq & Hin). simpl in Heq. inversion Heq; subst.
   apply in_map_iff. exists (p, i). auto.
@@ -168,7 +170,9 @@ Qed.
 Theorem swnm_encode_agree L L' ss :
   agree_on L L' (fun s => In s (map s_name ss)) -> swnm_encode L' ss = swnm_encode L ss.
 Proof.
-  intros Ha. unfold swnm_encode. f_equal. apply mapM_ext_in. intros x Hx. apply Ha. apply in_map. assumption.
+  intros Ha. unfold swnm_encode.
+  match goal with |- bind (mapM ?f ?l) _ = bind (mapM ?g ?l) _ => assert (mapM f l = mapM g l) as ->; [|reflexivity] end.
+  apply mapM_ext_in. intros x Hx. apply Ha. apply in_map. assumption.
 Qed.
 
 Theorem loc_encode_agree L L' l : agree_on L L' (fun s => s = l_name l) -> loc_encode L' l = loc_encode L l.
@@ -184,7 +188,10 @@ Qed.
 Theorem unis_encode_agree L L' nw us :
   agree_on L L' (fun s => In s (map u_name us)) -> unis_encode L' nw us = unis_encode L nw us.
 Proof.
-  intros Ha. unfold unis_encode. f_equal. apply fold_left_ext_in. intros acc x Hx.
+  intros Ha. unfold unis_encode.
+  match goal with |- bind (fold_left ?f ?l ?a) _ = bind (fold_left ?g ?l ?a) _ =>
+    assert (fold_left f l a = fold_left g l a) as ->; [|reflexivity] end.
+  apply fold_left_ext_in. intros acc x Hx.
   rewrite (Ha (u_name x)) by (apply in_map; assumption). reflexivity.
 Qed.
 
